@@ -11,7 +11,7 @@ BOUNDS = {
     "quick": "documents svg > g > (rect | use of a rect in defs) with nesting <= 3; per property (fill, stroke, stroke-width) every single source and every pair of sources among "
              "{presentation attribute, rule via *, type, .class, type.class, #id, comma list, inline style} in both sheet orders, on the element itself and on an ancestor; "
              "currentColor with color at each level or from the caller; fill-/stroke-opacity (symbolic) own and inherited; display:none; reify with symbolic transforms of "
-             "either determinant sign and vector-effect; stroke widths and opacities are symbolic numbers, colours distinct keywords per source",
+             "either determinant sign and vector-effect; stroke widths and opacities are symbolic numbers, colours distinct keywords per source; stroke-width with units px, pt, pc, in, cm, mm (symbolic amount and ppi) through attribute, rule, inline style and inheritance",
     "thorough": "all triples of sources for fill and stroke-width and two-level inheritance chains",
 }
 OUTSIDE = ["rules that select the root svg element (the style element is necessarily read after the root's start tag)", "selectors the library documents as unsupported (descendant, attribute, pseudo-classes)", "!important", "nesting deeper than the bound"]
@@ -260,6 +260,34 @@ def h_width_reify(ctx, tr, vector_effect, reify):
         ctx.claim("implicit stroke width", ctx.eq(sh.implicit_stroke_width, w * factor))
 
 
+def h_width_units(ctx, unit, source):
+    """stroke-width with a CSS unit, set by attribute, rule, inline style or inherited from a group: resolved by the CSS ratios and the parser's ppi"""
+    S = ctx.S
+    w = ctx.real("w", 0.01, 100)
+    ppi = ctx.real("ppi", 10, 1000)
+    val = "%s%s" % (w, unit)
+    rect = '<rect id="r" class="k" width="5" height="5" stroke="red"%s/>'
+    style = ""
+    if source == "attr":
+        body = rect % (' stroke-width="%s"' % val)
+    elif source == "inline":
+        body = rect % (' stroke-width="7" style="stroke-width:%s"' % val)
+    elif source == "rule":
+        style = "<style>.k {stroke-width: %s}</style>" % val
+        body = rect % ' stroke-width="7"'
+    else:
+        body = '<g stroke-width="%s">%s</g>' % (val, rect % "")
+    text = '<svg xmlns="http://www.w3.org/2000/svg" width="100" height="100">%s%s</svg>' % (style, body)
+    svg = S.SVG.parse(io.StringIO(text), ppi=ppi)
+    sh = D.lib_shapes(S, svg)[0]
+    ratio = {"": 1, "px": 1, "pt": Fraction(4, 3), "pc": 16}.get(unit)
+    if ratio is not None:
+        ctx.claim("stroke-width with unit resolves by the CSS ratio", ctx.eq(sh.stroke_width, w * ctx.num(Fraction(ratio))), lambda: text)
+    else:
+        per_in = {"in": Fraction(1), "cm": Fraction(100, 254), "mm": Fraction(10, 254)}[unit]
+        ctx.claim("stroke-width with unit resolves by the CSS ratio and ppi", ctx.close(sh.stroke_width, w * ppi * ctx.num(per_in), 1e-5, 1e-9), lambda: text)
+
+
 def h_display(ctx, where, how):
     S = ctx.S
     hid = {"attr": {"display": "none"}, "inline": {"style": "display:none"}, "rule": {"class": "hid"}, "upper": {"display": "NONE"}}[how]
@@ -359,6 +387,9 @@ def harnesses(tier):
         for ve in (False, True):
             for reify in (True, False):
                 hs.append({"name": "width/%s/ve=%s/reify=%s" % (trn, ve, reify), "fn": "h_width_reify", "params": {"tr": tr, "vector_effect": ve, "reify": reify}})
+    for unit in ("px", "pt", "pc", "in", "cm", "mm"):
+        for source in ("attr", "inline", "rule", "inherited"):
+            hs.append({"name": "width_unit/%s/%s" % (unit, source), "fn": "h_width_units", "params": {"unit": unit, "source": source}})
     for where in ("self", "parent"):
         for how in ("attr", "inline", "rule", "upper"):
             hs.append({"name": "display/%s/%s" % (where, how), "fn": "h_display", "params": {"where": where, "how": how}})
